@@ -1431,6 +1431,12 @@ def run_c19(chk):
     one = lib.run_lines(h, [lib.req("query", t, b, *es) for t, b, es in qs], timeout=900, per_line_resume=True)
     fresh = lib.run_lines(h, [lib.req("qfresh", t, b, *es) for t, b, es in qs], timeout=900, per_line_resume=True)
     model = lib.run_lines(lib.model_driver(), [lib.req("queryq", "rz", t, b, *es) for t, b, es in qs], timeout=900)
+    # ... and every query ALONE on a document parsed for it (`query` and `qfresh` read the text once per series: what an earlier
+    # query leaves in the DOCUMENT - not in the context - is seen only against this; round-9 seed C19-N kept the declared type of
+    # the first defaulted attribute read in the document's shared context)
+    alone_keys = list(dict.fromkeys((t, b, e) for t, b, es in qs if len(es) <= 40 for e in es))
+    alone_out = lib.run_lines(h, [lib.req("query", t, b, e) for t, b, e in alone_keys], timeout=900, per_line_resume=True)
+    alone = {k: _fields(o, 1)[0][0] for k, o in zip(alone_keys, alone_out)}
     # parsing twice: equal dumps and equal serializations
     # ... including documents at the nesting limits read from the source, each parsed again after a document beyond the limit was
     # refused in the same process (hidden parser state must not survive a refusal)
@@ -1473,6 +1479,11 @@ def run_c19(chk):
             if x != y:
                 mfail.append((t, " ; ".join(es[:i + 1]), "query %d (%s) answers differently on the re-used context than on a fresh one"
                               % (i + 1, e), x + "  /  fresh: " + y))
+                break
+            z_ = alone.get((t, b, e))
+            if z_ is not None and x != z_:
+                mfail.append((t, " ; ".join(es[:i + 1]), "query %d (%s) answers differently after the queries before it than alone on the "
+                              "same text (an earlier query changed what the document reports)" % (i + 1, e), x + "  /  alone: " + z_))
                 break
         else:
             # (documents with several defaulted attributes: their node-sets fall under the recorded finding default-attr-order
@@ -1536,8 +1547,18 @@ def run_c19(chk):
     dth = [(DTD_, ["rm:h0:h1", "ib:h0:h1:h2"]), (DTD_, ["rm:h0:h1", "ib:h0:h1:h3"]), (DTD_, ["rm:h0:h1", "ib:h0:h1:h3", "rm:h0:h1", "ib:h0:h1:h2"]),
            (DTD_, ["rm:h0:h1", "ce:z", "ib:h0:h1:h3"]), (DTD_, ["rc:h0:h2:h1"]), (DTD_, ["rm:h0:h2", "rm:h0:h1", "ib:h0:h1:h3"])]
     dto = lib.run_lines(h, [lib.req("dom", t, dq_, *ops) for t, ops in dth], timeout=300, per_line_resume=True)
-    for (t, ops), a in zip(dth, dto):
-        for i, rec in enumerate(D.split_records(a)):
+    # (the same calls WITHOUT any query or other read in between - harness markers quiet / loud - must leave the document
+    # reporting the same: the queries of the loud run may not show in the final state)
+    dtq = lib.run_lines(h, [lib.req("dom", t, dq_, "quiet", *ops, "loud") for t, ops in dth], timeout=300, per_line_resume=True)
+    for (t, ops), a, qa in zip(dth, dto, dtq):
+        ra, rq = D.split_records(a), D.split_records(qa)
+        if ra and rq and (ra[-1].get("dump") != rq[-1].get("dump") or ra[-1]["flags"].get("rt") != rq[-1]["flags"].get("rt")):
+            mfail.append((t, "dom history: " + " ".join(ops), "the queries evaluated between the calls changed what the document reports after "
+                          "them (the same calls without any query in between leave a different state)",
+                          "with queries: %s %s  /  without: %s %s" % (ra[-1].get("dump", "")[:300], ra[-1]["flags"].get("rt", "")[:120],
+                                                                      rq[-1].get("dump", "")[:300], rq[-1]["flags"].get("rt", "")[:120])))
+            continue
+        for i, rec in enumerate(ra):
             edited_states += 1
             chk.count(["doctype-out-and-in", t] + ops[:i], nontrivial=i > 0 and rec["status"].startswith("ok"))
             q = rec["flags"].get("q", "")
